@@ -175,6 +175,21 @@ impl ElementMap for TransformerContext {
     }
 
     fn get_element_bbox(&self, el: &SvgElement) -> Result<Option<BoundingBox>> {
+        self.element_bbox_inner(el, 0)
+    }
+}
+
+impl TransformerContext {
+    /// Bounding box of `el`, following `clip-path` references; `depth` counts
+    /// the clip-path links followed so far, so that a clipPath which (directly
+    /// or indirectly) clips itself is reported rather than recursing forever.
+    fn element_bbox_inner(&self, el: &SvgElement, depth: u32) -> Result<Option<BoundingBox>> {
+        if depth > self.config.depth_limit {
+            return Err(SvgdxError::DepthLimitExceeded(
+                depth,
+                self.config.depth_limit,
+            ));
+        }
         let target_el = el.get_target_element(self)?;
         let mut el_bbox = target_el.bbox()?;
 
@@ -203,9 +218,10 @@ impl ElementMap for TransformerContext {
             let clip_el = self
                 .get_element(&clip_id)
                 .ok_or(SvgdxError::ReferenceError(clip_id))?;
-            if let ("clipPath", Some(clip_bbox)) =
-                (clip_el.name.as_str(), self.get_element_bbox(clip_el)?)
-            {
+            if let ("clipPath", Some(clip_bbox)) = (
+                clip_el.name.as_str(),
+                self.element_bbox_inner(clip_el, depth + 1)?,
+            ) {
                 el_bbox = bbox.intersect(&clip_bbox);
             }
         }
